@@ -1,1 +1,4 @@
 // hook file for ntpd/src/daemon/observer.rs: declares the per-property harness modules
+#[cfg(any(verif_all, verif_c38))]
+#[path = "/verif/harness/ntpd/c38.rs"]
+mod c38;
